@@ -303,6 +303,7 @@ def _winit(univ, gens, sample_ok=0):
 
 def _wrun(chunk):
     out = []
+    per_kind = {}
     n = 0
     for c in chunk:
         d = _W["univ"][c["d"] - 1]
@@ -328,7 +329,9 @@ def _wrun(chunk):
                 except Exception:
                     out.append({"clauses": ["harness"], "detail": traceback.format_exc()[-1500:], "obs": None, "gen": gen, "d": c["d"]})
                     continue
-                if mm:
+                kind = tuple(sorted(mm))
+                per_kind[kind] = per_kind.get(kind, 0) + 1
+                if mm and per_kind[kind] <= 25:      # (at most 25 differing executions of each kind per chunk)
                     out.append({"clauses": mm, "obs": obs, "gen": gen, "d": c["d"], "how": how})
                 elif _W.get("sample_ok", 0) > 0 and obs.get("eq", {}).get("st") == "ok":
                     # also hand a sample of agreeing executions to TLC (the predicates are evaluated, not only the diffs)
